@@ -321,9 +321,10 @@ func nexusTaxLabels(data []byte) (labels []string, ok bool) {
 	}
 	block := ""
 	n := 0
-	for _, cmd := range strings.Split(s, ";") {
+	for i, cmd := range strings.Split(s, ";") {
 		cmd = strings.Join(strings.Fields(cmd), " ")
-		if len(cmd) >= 6 && strings.EqualFold(cmd[:6], "#NEXUS") {
+		// the magic word heads the first command only; anywhere else it names an unknown command
+		if i == 0 && len(cmd) >= 6 && strings.EqualFold(cmd[:6], "#NEXUS") {
 			cmd = strings.TrimSpace(cmd[6:])
 		}
 		low := strings.ToLower(cmd)
@@ -354,10 +355,11 @@ func nexusDims(data []byte) (ntax, nchar int64, okTax, okChar bool) {
 	ndata := 0
 	taxaNtax := int64(-1)
 	dataNtax, dataNchar := int64(-1), int64(-1)
-	for _, cmd := range strings.Split(s, ";") {
+	for i, cmd := range strings.Split(s, ";") {
 		cmd = strings.Join(strings.Fields(cmd), " ")
-		// the magic word is not followed by a semicolon: it heads the first command
-		if len(cmd) >= 6 && strings.EqualFold(cmd[:6], "#NEXUS") {
+		// the magic word is not followed by a semicolon: it heads the first command (and only
+		// that one: anywhere else "#NEXUS ..." is an unknown command, skipped with its arguments)
+		if i == 0 && len(cmd) >= 6 && strings.EqualFold(cmd[:6], "#NEXUS") {
 			cmd = strings.TrimSpace(cmd[6:])
 		}
 		low := strings.ToLower(cmd)
@@ -1068,7 +1070,7 @@ var hostile = []string{
 
 // mutate applies one mutation; returns the new data and the kind
 func mutate(t *rapid.T, d []byte, other []byte) ([]byte, string) {
-	kind := rapid.SampledFrom([]string{"empty-command", "truncate", "truncate", "del-line", "dup-line", "swap-lines", "flip-byte", "ins-byte", "del-byte", "token", "token", "token", "splice", "header-count", "del-range", "crlf", "strip-final-newline"}).Draw(t, "mutation")
+	kind := rapid.SampledFrom([]string{"empty-command", "dup-terminator", "truncate", "truncate", "del-line", "dup-line", "swap-lines", "flip-byte", "ins-byte", "del-byte", "token", "token", "token", "splice", "header-count", "del-range", "crlf", "strip-final-newline"}).Draw(t, "mutation")
 	n := len(d)
 	pos := func(label string) int {
 		if n == 0 {
@@ -1166,6 +1168,14 @@ func mutate(t *rapid.T, d []byte, other []byte) ([]byte, string) {
 		}
 		loc := locs[rapid.IntRange(0, len(locs)-1).Draw(t, "command")]
 		return append(append(append([]byte{}, d[:loc[3]]...), ';'), d[loc[1]:]...), kind
+	case "dup-terminator":
+		// one terminator of the text written twice: ";" (an empty Nexus command), "//", "," or "="
+		locs := reTerminator.FindAllIndex(d, -1)
+		if len(locs) == 0 {
+			return d, kind
+		}
+		loc := locs[rapid.IntRange(0, len(locs)-1).Draw(t, "terminator")]
+		return append(append(append([]byte{}, d[:loc[1]]...), d[loc[0]:loc[1]]...), d[loc[1]:]...), kind
 	case "crlf":
 		return bytes.ReplaceAll(d, []byte("\n"), []byte("\r\n")), kind
 	case "strip-final-newline":
@@ -1173,6 +1183,8 @@ func mutate(t *rapid.T, d []byte, other []byte) ([]byte, string) {
 	}
 	return d, kind
 }
+
+var reTerminator = regexp.MustCompile(`;|//|,|=`)
 
 var reCommand = regexp.MustCompile(`(?i)\b(taxlabels|dimensions|format|matrix|begin [a-z]+)\b[^;]*;`)
 
